@@ -192,3 +192,9 @@ def run_case(vk, case):
         if e.election_states[1].tiebreaks:
             tags.append("tiebreak-recorded")
     return {"req": req, "expect": expect, "monitors": monitors, "tags": tags, "nontrivial": len(spec["b"]) > 0}
+
+
+def compare(model, expect):
+    if "ok" in expect and isinstance(expect["ok"], dict) and "states" in expect["ok"]:
+        return elect.compare_states(model, expect)
+    return None if model == expect else "model != implementation"
